@@ -531,7 +531,7 @@ def coq_cases(tag, imports, fexpr, cases, shard=400, timeout=900, jobs=None):
             with open(path, "w") as f:
                 f.write(_cases_file(imports, fexpr, chunk, show_idx=idx[:8]))
             rc, out2 = _run_coqc(path, timeout)
-            shown = re.findall(r'=\s*"((?:[^"]|"")*)"%string', out2)
+            shown = re.findall(r'=\s*"((?:[^"]|"")*)"(?:%string)?\s*:\s*string', out2)
             for j, i in enumerate(idx):
                 res[k + i] = shown[j] if j < len(shown) else "(model output not rendered)"
         for ext in (".v", ".vo", ".vok", ".vos", ".glob"):
